@@ -4390,8 +4390,11 @@ def unify_chunks(*args, **kwargs):
     arrays, inds = zip(*arginds)
     if all(ind is None for ind in inds):
         return {}, list(arrays)
-    if all(ind == inds[0] for ind in inds) and all(
-        a.chunks == arrays[0].chunks for a in arrays
+    if (
+        all(ind == inds[0] for ind in inds)
+        and all(a.chunks == arrays[0].chunks for a in arrays)
+        # an index repeated within one operand still needs its axes aligned
+        and len(set(inds[0])) == len(inds[0])
     ):
         return dict(zip(inds[0], arrays[0].chunks)), arrays
 
